@@ -32,6 +32,14 @@ CHECKS = {
             {"name": "api-bfs", "pkg": "pkg/verifapi", "harness": "api", "run": "^TestVerifC14$", "shards": 16, "shards_thorough": 16},
         ],
     },
+    "C17": {
+        "rule": "positions: every byte string up to the stated length + nil/empty/large; fields: every text field x a 20-string Unicode class alphabet; nil/empty/one-element collections; every status and enum; reference-order permutations; generated pre-0.4.1 connector records and golden fixtures; each case is stored through the real services and read back by fresh services on a copy of the store",
+        "parts": [
+            {"name": "positions", "pkg": "pkg/verifstore", "harness": "store", "run": "^TestVerifC17Positions$", "shards": 8, "shards_thorough": 16},
+            {"name": "fields", "pkg": "pkg/verifstore", "harness": "store", "run": "^TestVerifC17Fields$"},
+            {"name": "oldformats", "pkg": "pkg/verifstore", "harness": "store", "run": "^TestVerifC17OldFormats$"},
+        ],
+    },
     "C18": {
         "rule": "IPv4: every address (thorough) / 4 addresses of every /24 + floor boundaries (quick) in 8 carrier forms; IPv6: all leading hextets x tails; dial: every resolver answer sequence <=2 (quick) / <=3 (thorough) x allowlists x ports; policy: all subset pairs of a 4-entry universe x refs x timeouts x sizes",
         "parts": [
